@@ -179,7 +179,8 @@ this request (the check maps them to known-finding signatures). -/
 def tagsOf (t : TableMeta) (lay : List RowSet) (bound opt : Plan) : List String :=
   let (cols, f) := scanOf opt
   let t1 := if hasSort bound && !hasSort opt && lay.length ≥ 2 then ["order:pk-order-multi-rowset"] else []
-  let t2 := if topnAbsentLimit opt then ["topn:absent-limit"] else []
+  -- (`topn:absent-limit` is repaired: fix ec313d4)
+  let t2 : List String := []
   let t3 := match analyzeRange f, keyRangeOfFilter f with
     | some (k, _), some r =>
       let vals := (bndVal r.lo).toList ++ (bndVal r.hi).toList
@@ -270,7 +271,7 @@ def execPlanCF (fx : Fixes) (t : TableMeta) (lay : List RowSet) : Plan → Out (
   | .order ks p => (execPlanCF fx t lay p).map fun rows => sortL (keyCmp ks) rows
   | .limit n m p => (execPlanCF fx t lay p).map fun rows => limitExec n m [rows]
   | .topn n m ks p => (execPlanCF fx t lay p).bind fun rows =>
-      if fx.topnCap && n.isNone then .ok ((sortL (keyCmp ks) rows).drop m) else topnExec (keyCmp ks) n m rows
+      topnExec (keyCmp ks) n m rows
   | .empty _ => .ok []
 
 def fixOf (fx : Fixes) : String → Fixes
